@@ -147,8 +147,46 @@ def values_inline(rng, dt, desc):
     return out
 
 
+def run_shared_od(ctx, desc):
+    """Several local nodes built from the same ObjectDictionary object (a common way to set up identical devices)."""
+    from canopen.sdo.exceptions import SdoAbortedError
+    shared_local, shared_remote = od_factory(), od_factory()
+    factories = iter([shared_remote, shared_local] * 3)
+    rig = rigs.PairRig(lambda: next(factories), node_ids=(3, 4, 6))
+    rng = random.Random(repr(("c03s", desc["cs"])))
+    for dt in R.NAMES:
+        for a, b in ((3, 4), (6, 3), (4, 6)):
+            v = unique_value(rng, dt, a, 8, rng.randrange(1000))
+            style, key = rng.choice(keys_for(dt))
+            case = {"mode": "shared-od", "type": R.NAMES[dt], "key": key, "value": v, "written_on": a, "read_on": b}
+            ctx.case(("shared-od", R.NAMES[dt], style), nontrivial=True)
+            try:
+                rig.remotes[a].sdo[key].raw = v
+            except Exception as exc:  # noqa: BLE001
+                ctx.violation(f"roundtrip-raised:{type(exc).__name__}:shared-od", repr(exc), case)
+                continue
+            ctx.count("roundtrips")
+            index, sub = (gen.TYPE_INDEX_BASE + dt, 0) if style != "dotted" else (0x2100, member_sub(dt))
+            ctx.count("store_bytes_compared")
+            if rig.locals[a].data_store.get(index, {}).get(sub) != R.encode(dt, v):
+                ctx.violation("store-bytes-wrong:shared-od", f"node {a} does not hold the encoding of {v!r}", case)
+            # node b was never given a value for this object (or holds its own earlier one): it must not report a's
+            own = rig.locals[b].data_store.get(index, {}).get(sub)
+            try:
+                got = rig.remotes[b].sdo[key].raw
+                if own is None or not equal(dt, got, R.decode(dt, own)):
+                    ctx.violation("cross-talk:shared-od", f"node {b} reports {got!r} for an object only node {a} was given (node {b} holds {own!r})", case)
+            except SdoAbortedError as exc:
+                if own is not None:
+                    ctx.violation("cross-talk:shared-od", f"node {b} aborts with {exc} although it holds {own!r}", case)
+    ctx.sample({"mode": "shared-od", "nodes": [3, 4, 6]})
+    rig.close()
+
+
 def run_inline(ctx, desc):
     oracles.install_codec(ctx, prefix="ambient_codec")
+    if desc["part"] == 0:
+        run_shared_od(ctx, desc)
     rig = rigs.PairRig(od_factory, node_ids=(3,))
     rng = random.Random(repr(("c03i", desc["cs"])))
     types = list(R.NAMES)
